@@ -61,7 +61,7 @@ def run(prop, tier, seed, workdir):
     nmodel = len(sessions)
     if tier == "quick" and len(sessions) > 12000:
         sessions = rnd.sample(sessions, 12000)
-    nrand = 1500 if tier == "quick" else 40000
+    nrand = 1500 if tier == "quick" else 25000
     for _ in range(nrand):
         sessions.append(random_session(rnd, 12 if rnd.random() < 0.8 else 150))
     b = build.ensure(["slack"], [("htok", "slack")])
@@ -86,7 +86,7 @@ def run(prop, tier, seed, workdir):
         return p.stdout.splitlines()
 
     def val(g):
-        return tlc.validate("TraceTok", os.path.join(tlc.SPEC, "TraceTok.cfg"), g, workdir, jvms=1)
+        return tlc.validate("TraceTok", os.path.join(tlc.SPEC, "TraceTok.cfg"), g, workdir, jvms=1, timeout=1800 if tier == "quick" else 6000)
     with ThreadPoolExecutor(max_workers=k) as ex:
         outs = list(ex.map(runchunk, chunks))
         total, bad, tstates = 0, [], 0
